@@ -33,7 +33,34 @@ def cases(rng, tier):
             for qt in qts:
                 for qc in list(CLASSES) + [255]:
                     out.append("MATCH %x %x %x %x" % (rt, rc, qt, qc))
+    # records held as RData::NULL(code, data), by construction
+    for rt in rts:
+        for qt in qts:
+            out.append("MATCHN %x 1 %x ff" % (rt, qt))
+    # records obtained by parsing: every supported code and some unknown ones, with RDLENGTH 0 (Empty) and with the
+    # reference encoding of a value of that type (typed variant / NULL / unknown)
+    import dns
+    for rt in rts:
+        for rd in ([b""] + ([REFRD[rt]] if rt in REFRD else [b"\x01\x02\x03"] if rt not in BYCODE or rt == 10 else [])):
+            if rt == 41:
+                continue
+            wire = b"\x01a\x00" + rt.to_bytes(2, "big") + b"\x00\x01\x00\x00\x00\x05" + len(rd).to_bytes(2, "big") + rd
+            for qt in (rt, 255, 253, 10, 1, 15):
+                out.append("RRMATCH %s %x 1" % (wire.hex(), qt))
     return out
+
+
+def _refrd():
+    import dns
+    from lib import Rng
+    rng = Rng(12345)
+    out = {}
+    for t in dns.TYPED:
+        out[dns.SCHEMA[t][0]] = dns.enc_rdata_ref(t, dns.gen_typed_vals(rng, t, None))
+    return out
+
+
+REFRD = _refrd()
 
 
 def normalize(case, out):
@@ -77,7 +104,14 @@ def oracle(case, out):
         else:
             return None
         return None if out == exp else "%s %x: expected %r, got %r" % (t[1], c, exp, out)
-    if t[0] == "MATCH":
+    if t[0] == "RRMATCH":
+        d = bytes.fromhex(t[1])
+        rt = int.from_bytes(d[3:5], "big")
+        if not out.startswith("OK "):
+            return "a well-formed record of type %d was rejected: %r" % (rt, out)
+        out = out[3:]
+        t = ["MATCH", "%x" % rt, "1", t[2], t[3]]
+    if t[0] in ("MATCH", "MATCHN"):
         rt, rc, qt, qc = (int(x, 16) for x in t[1:5])
         rname = tyname(rt)
         if qt == 255:
